@@ -202,6 +202,26 @@ class Builder:
             M = self.array({"n": r["n"], "m": r.get("m", r["n"]), "dtype": r.get("dtype", "f8"),
                             "seed": r.get("seed", 0), "sym": r.get("sym", "gen")})
             return ops.LinearOperator(M.dtype, M.shape, matmat=_Matmat(M))
+        if k == "flood":
+            # many parametric classes of one family in one step: `count` composites whose first part is an instance of a
+            # FRESH user class each (Product[Scaled, Dense], ... -- every one a new concrete class of the family)
+            fam, count = r.get("family", "product"), r.get("count", 1200)
+            d = self.array({"shape": [2], "dtype": "f8", "seed": 5, "kind": "pos"})
+            other = B({"k": "dense", "n": 2, "dtype": "f8", "seed": 6, "sym": "gen"})
+            last = None
+            for _ in range(count):
+                U = _make_user_class()(d, 2.0)
+                if fam == "product":
+                    last = ops.Product(U, other)
+                elif fam == "sum":
+                    last = ops.Sum(U, other)
+                elif fam == "kron":
+                    last = ops.Kronecker(U, other)
+                elif fam == "transpose":
+                    last = ops.Transpose(U)
+                else:
+                    last = ops.BlockDiag(U, other)
+            return last
         if k == "userview":
             # a user operator whose product is a VIEW of its argument (legal: exchange matrix J = X[::-1], or the identity
             # written as X[:]) -- cola must not write into what an operator's product returned without owning it
